@@ -281,6 +281,8 @@ func makeField(v reflect.Value, params fieldParameters) (encoder, error) {
 					if err != nil {
 						return nil, err
 					}
+					// the context tag around the alternative is the explicit tag already
+					params.explicitTag = false
 				}
 			} else {
 				// Struct type: SEQUENCE, SET
